@@ -1,16 +1,20 @@
 /* C09 / #if evaluation: the real `eval` + `eval_binop_operands` of c2mir/c2mir.c on hand-built expression trees.
 
    Tree shapes (H_SHAPE):
-     1  OP (leaf, leaf, leaf)                           one operator over leaves; OP concrete (-DOP=<ppif_op>)
-     2  OP (.., OP1 (leaf..), ..)                       depth 2: the H_POS-th operand of the outer operator OP is an
-                                                        inner operator node; OP1 is symbolic (all 23 operators) unless
-                                                        -DH_OP1=<ppif_op>; all other operands are leaves
-   Symbolic: kind of every leaf (N_I N_L N_LL | N_U N_UL N_ULL | N_CH | N_CH16 N_CH32), 64-bit value of every leaf,
-   inner operator.  Nodes are real `struct node`s in static storage linked with the real NL_APPEND; no allocator,
-   no c2mir_init: the context is a zeroed `struct c2m_ctx` with `options` (message_file) and `node_positions` only,
-   which is all `eval`/`error`/`POS` touch.
+     0  leaf                                  every constant kind eval accepts
+     1  OP (leaf, leaf, leaf)                 one operator over leaves; OP concrete (-DOP=<ppif_op number>)
+     2  OP (.., OP1 (leaf, leaf, leaf), ..)   depth 2: operand number H_POS of the outer operator OP is an inner
+                                              operator node, all other operands are leaves; OP1 ranges over
+                                              [H_OP1_LO, H_OP1_HI) (default: all 23 operators)
+   Symbolic: the kind of every leaf (the first H_NK entries of h_kinds), the 64-bit value of every leaf, the inner
+   operator.  Kinds and inner operator are finite: the harness enumerates their combinations around the call of
+   `eval` (each combination is one guarded call on a tree whose node codes are constants, so that symbolic execution
+   resolves the `switch` of eval instead of exploring all 23 cases at every level); the 64-bit values are left to the
+   solver.  Nodes are real `struct node`s in static storage linked with the real NL_APPEND; no allocator, no
+   c2mir_init: the context is a zeroed `struct c2m_ctx` with `options` (message_file) and `node_positions` only - all
+   that `eval`, `error` and `POS` touch.
    Oracle: ref/ppif_ref.h (C11 6.10.1p4 + 6.6 + 6.5.x).  `error ()` is observable through c2m_ctx->n_errors.
-   -DH_DIV0=1      (shape 1, OP = / or %) divisor is zero: a diagnostic must be reported
+   -DH_DIV0=1      (shape 1, OP = / or %) the divisor is zero: a diagnostic must be reported
    -DH_EXCLUDE_F6  assume away exactly the operand-type combinations of finding F6 (see props/C09.py) */
 #include "h.h"
 #include <stdarg.h>
@@ -28,6 +32,18 @@ int fprintf (FILE *f, const char *fmt, ...) { (void) f; (void) fmt; return 0; }
 #ifndef H_POS
 #define H_POS 0
 #endif
+#ifndef OP
+#define OP 0
+#endif
+#ifndef H_NK
+#define H_NK 3 /* leaf kinds in use: the first H_NK of h_kinds */
+#endif
+#ifndef H_OP1_LO
+#define H_OP1_LO 0
+#endif
+#ifndef H_OP1_HI
+#define H_OP1_HI PPIF_NOPS
+#endif
 
 #define H_NN 8
 static struct c2mir_options h_opts;
@@ -37,6 +53,10 @@ static VARR (pos_t) h_positions;
 static struct node h_nodes[H_NN];
 static int h_nn;
 static int h_f6; /* some node of the tree has an operand-type combination of finding F6 */
+
+static const node_code_t h_kinds[9] = {N_LL, N_ULL, N_CH, N_I, N_U, N_L, N_UL, N_CH16, N_CH32};
+static uint64_t h_bits[6]; /* leaf values: slots 0-2 operands of the outer operator, 3-5 of the inner one */
+static unsigned h_sel[6];  /* leaf kinds (index into h_kinds) */
 
 static const node_code_t h_code[PPIF_NOPS] = {
   [PPIF_BITNOT] = N_BITWISE_NOT, [PPIF_NOT] = N_NOT, [PPIF_PLUS] = N_ADD, [PPIF_NEG] = N_SUB,
@@ -51,17 +71,16 @@ static node_t h_new (node_code_t code) {
   n->uid = (unsigned) h_nn++;
   n->attr = NULL;
   n->op_link.prev = n->op_link.next = NULL;
-  n->u.ops.head = n->u.ops.tail = NULL; /* also zeroes the first 16 bytes of the value union */
+  n->u.s.s = NULL; /* zero the first 16 bytes of the value union (= u.ops.head/tail) */
+  n->u.s.len = 0;
   return n;
 }
 
-/* a constant: the token kinds a pp-number or character constant can become */
-static node_t h_leaf (ppif_val *v) {
-  static const node_code_t kinds[9] = {N_I, N_L, N_LL, N_U, N_UL, N_ULL, N_CH, N_CH16, N_CH32};
-  unsigned k = (unsigned) nd_below (9);
-  uint64_t bits = nd ();
-  node_t n = h_new (kinds[k]);
-  switch (kinds[k]) {
+/* a constant: the node kinds a pp-number or a character constant can become; kind is a constant here */
+static node_t h_leaf (int slot, unsigned kind, ppif_val *v) {
+  uint64_t bits = h_bits[slot];
+  node_t n = h_new (h_kinds[kind]);
+  switch (h_kinds[kind]) {
   case N_I:
   case N_L: n->u.l = (mir_long) bits; *v = ppif_leaf (0, bits); break;
   case N_LL: n->u.ll = (mir_llong) bits; *v = ppif_leaf (0, bits); break;
@@ -87,29 +106,97 @@ static void h_note_f6 (ppif_op op, ppif_val a, ppif_val b, ppif_val c) {
   if (op == PPIF_COND && b.uns != c.uns) h_f6 = 1;
 }
 
-/* operator node over the given operand nodes; returns the reference value */
+/* operator node over the given operand nodes; *v = the reference value */
 static node_t h_op (ppif_op op, node_t k[3], ppif_val kv[3], ppif_val *v) {
   node_t n = h_new (h_code[op]);
   int ar = ppif_arity (op);
-  for (int i = 0; i < 3; i++)
-    if (i < ar) NL_APPEND (n->u.ops, k[i]);
 #if H_CBMC
-  /* Same memory state, written once more through the union member by which CBMC represents `u` (its first widest
-     member, the str_t): CBMC's simplifier does not propagate a pointer stored through the `ops` member of the union,
-     every operand would then be "some node" and symex explores all 23 cases at every level. */
+  /* The operand list is written field by field, head/tail through the union member by which CBMC represents `u`
+     (its first widest member, the str_t): CBMC's simplifier does not propagate a pointer stored through the `ops`
+     member of the union, and NL_APPEND then writes `tail->next` through a pointer symex no longer knows; every
+     operand would be "some node" and symbolic execution would explore all 23 cases of eval at every level.  The
+     state is the one NL_APPEND builds (natively NL_APPEND is used); it is read back through the real accessors. */
+  for (int i = 0; i < 3; i++)
+    if (i < ar) {
+      k[i]->op_link.prev = i > 0 ? k[i - 1] : NULL;
+      k[i]->op_link.next = i + 1 < ar ? k[i + 1] : NULL;
+    }
   n->u.s.s = (const char *) k[0];
   n->u.s.len = (size_t) k[ar - 1];
+  H_ASSERT (NL_HEAD (n->u.ops) == k[0] && NL_TAIL (n->u.ops) == k[ar - 1] && NL_EL (n->u.ops, ar) == NULL
+              && NL_EL (n->u.ops, ar - 1) == k[ar - 1] && NL_EL (n->u.ops, 1) == (ar > 1 ? k[1] : NULL),
+            "harness: hand-written operand list reads back through the real DLIST accessors");
+#else
+  for (int i = 0; i < 3; i++)
+    if (i < ar) NL_APPEND (n->u.ops, k[i]);
 #endif
   h_note_f6 (op, kv[0], kv[1], kv[2]);
   *v = ppif_apply (op, kv[0], kv[1], kv[2]);
   return n;
 }
 
-void harness (void) {
+/* one tree with constant node codes and symbolic leaf values: build, run the real eval, compare */
+static void h_case (ppif_op op, ppif_op op1, const unsigned c[6]) {
   c2m_ctx_t c2m_ctx = &h_ctx;
   node_t k[3], root;
   ppif_val kv[3], exp;
   struct val res;
+
+  h_nn = 0;
+  h_f6 = 0;
+  n_errors = 0;
+#if H_SHAPE == 0
+  (void) op; (void) op1; (void) k; (void) kv;
+  root = h_leaf (0, c[0], &exp);
+#elif H_SHAPE == 1
+  (void) op1;
+  for (int i = 0; i < 3; i++) k[i] = h_leaf (i, c[i], &kv[i]);
+#if defined(H_DIV0)
+  H_ASSUME (kv[1].bits == 0);
+#elif OP == 13 || OP == 14 /* PPIF_DIV, PPIF_MOD: the zero divisor has its own obligation */
+  H_ASSUME (kv[1].bits != 0);
+#endif
+  root = h_op (op, k, kv, &exp);
+#else
+  {
+    node_t ik[3];
+    ppif_val ikv[3];
+    for (int i = 0; i < 3; i++) ik[i] = h_leaf (3 + i, c[3 + i], &ikv[i]);
+    for (int i = 0; i < 3; i++)
+      if (i == H_POS)
+        k[i] = h_op (op1, ik, ikv, &kv[i]);
+      else
+        k[i] = h_leaf (i, c[i], &kv[i]);
+    root = h_op (op, k, kv, &exp);
+  }
+#endif
+#ifdef H_EXCLUDE_F6
+  H_ASSUME (!h_f6);
+#endif
+
+  res = eval (c2m_ctx, root);
+
+  /* undefined behaviour in an evaluated position: C requires nothing (MIR wraps) - not claimed */
+  H_ASSUME (!exp.undef);
+  if (exp.diag) {
+    H_ASSERT (n_errors != 0, "division/remainder by zero in an evaluated position is diagnosed");
+#if defined(H_DIV0) || H_SHAPE == 2
+    H_WITNESS ("zero divisor evaluated");
+#endif
+  } else {
+    H_ASSERT (n_errors == 0, "no error for an expression whose evaluated part is valid");
+    H_ASSERT ((res.uns_p != 0) == exp.uns, "result type: intmax_t vs uintmax_t as C11 requires");
+    H_ASSERT (res.u.u_val == exp.bits, "result value");
+#if !defined(H_DIV0)
+    H_WITNESS ("result compared");
+#endif
+  }
+}
+
+void harness (void) {
+  c2m_ctx_t c2m_ctx = &h_ctx;
+  ppif_op op = (ppif_op) (OP);
+  unsigned used[6], c[6];
 
   c2m_options = &h_opts;
 #if H_CBMC
@@ -122,61 +209,42 @@ void harness (void) {
   h_positions.varr = h_pos;
   node_positions = &h_positions;
 
-  ppif_op op = (ppif_op) (OP);
-#if H_SHAPE == 1
-  for (int i = 0; i < 3; i++) k[i] = h_leaf (&kv[i]);
-#if defined(H_DIV0)
-  H_ASSUME (kv[1].bits == 0);
-#elif OP == 13 || OP == 14 /* PPIF_DIV, PPIF_MOD */
-  H_ASSUME (kv[1].bits != 0);
-#endif
-  root = h_op (op, k, kv, &exp);
+  for (int i = 0; i < 6; i++) {
+    h_sel[i] = (unsigned) nd_below (H_NK);
+    h_bits[i] = nd ();
+  }
+#if H_SHAPE == 2
+  ppif_op sel1 = (ppif_op) nd ();
+  H_ASSUME (sel1 >= H_OP1_LO && sel1 < H_OP1_HI);
+  H_ASSUME (H_POS < ppif_arity (op));
+  for (int o1 = H_OP1_LO; o1 < H_OP1_HI; o1++)
+    if (sel1 == (ppif_op) o1) {
+      ppif_op op1 = (ppif_op) o1;
+      for (int i = 0; i < 3; i++) {
+        used[i] = i < ppif_arity (op) && i != H_POS;
+        used[3 + i] = i < ppif_arity (op1);
+      }
 #else
   {
-#ifdef H_OP1
-    ppif_op op1 = (ppif_op) (H_OP1);
-#else
-    ppif_op op1 = (ppif_op) nd_below (PPIF_NOPS);
+    {
+      ppif_op op1 = op;
+      for (int i = 0; i < 3; i++) {
+        used[i] = H_SHAPE == 0 ? i == 0 : i < ppif_arity (op);
+        used[3 + i] = 0;
+      }
 #endif
-    node_t ik[3];
-    ppif_val ikv[3];
-    H_ASSUME (H_POS < ppif_arity (op));
-    for (int i = 0; i < 3; i++) ik[i] = h_leaf (&ikv[i]);
-    for (int i = 0; i < 3; i++)
-      if (i == H_POS)
-        k[i] = h_op (op1, ik, ikv, &kv[i]);
-      else
-        k[i] = h_leaf (&kv[i]);
-    root = h_op (op, k, kv, &exp);
-  }
-#endif
-#ifdef H_EXCLUDE_F6
-  H_ASSUME (!h_f6);
-#endif
-
-  res = eval (c2m_ctx, root);
-
-#ifdef H_EARLY_VALUE
-  /* Solver aid for `*`: the wrapped product is compared BEFORE overflow is assumed away (stronger than the property:
-     the value is also checked where C leaves it undefined), so that this query does not depend on the 128-bit
-     product that decides representability. */
-  H_ASSERT (res.u.u_val == exp.bits, "result value (wrapped, also where C leaves it undefined)");
-#endif
-
-  /* undefined behaviour in an evaluated position: C requires nothing (MIR wraps) - not claimed */
-  H_ASSUME (!exp.undef);
-  if (exp.diag) {
-    H_ASSERT (n_errors != 0, "division/remainder by zero in an evaluated position is diagnosed");
-#if defined(H_DIV0) || (H_SHAPE == 2 && !defined(H_OP1))
-    H_WITNESS ("zero divisor evaluated");
-#endif
-  } else {
-    H_ASSERT (n_errors == 0, "no error for an expression whose evaluated part is valid");
-    H_ASSERT ((res.uns_p != 0) == exp.uns, "result type: intmax_t vs uintmax_t as C11 requires");
-    H_ASSERT (res.u.u_val == exp.bits, "result value");
-#if !defined(H_DIV0)
-    H_WITNESS ("result compared");
-#endif
+      /* all combinations of leaf kinds of the leaves in use; unused leaves stay of kind 0 */
+      for (c[0] = 0; c[0] < (used[0] ? H_NK : 1); c[0]++)
+        for (c[1] = 0; c[1] < (used[1] ? H_NK : 1); c[1]++)
+          for (c[2] = 0; c[2] < (used[2] ? H_NK : 1); c[2]++)
+            for (c[3] = 0; c[3] < (used[3] ? H_NK : 1); c[3]++)
+              for (c[4] = 0; c[4] < (used[4] ? H_NK : 1); c[4]++)
+                for (c[5] = 0; c[5] < (used[5] ? H_NK : 1); c[5]++) {
+                  int m = 1;
+                  for (int i = 0; i < 6; i++) m &= !used[i] || h_sel[i] == c[i];
+                  if (m) h_case (op, op1, c);
+                }
+    }
   }
   H_WITNESS ("end");
 }
